@@ -2,6 +2,7 @@
 import json
 
 import gen
+import bigfam
 import graphfam
 import libfam
 from common import pmap, MachineryError
@@ -221,6 +222,8 @@ def run(ctx, c19=False):
             r += 3
         pres = [{'naming': rnd.choice(['int', 'str', 'tuple', 'obj'] if not c19 else ['str', 'tuple', 'mixed', 'neg', 'obj', 'objmix']), 'shuf': rnd.randrange(1 << 30)}]
         hists.append({'ks': [K], 'fs': fs, 'steps': steps, 'family': 'short history around boundary answers', 'pres': pres, 'seed': rnd.randrange(1 << 30)})
+    if c19:          # every well-formed query returns (no internal error such as RecursionError) also on large structures
+        bigfam.run_big(ctx, bigfam.cases(rnd, ['mc'], 8 if q else 80, logics=('CTL', 'CTL', 'LTL', 'CTLS')))
     events = finish(ctx, hists)
     for h in hists:
         calls = [(s['k'], s['j'], s['fair']) for s in h['steps'] if s['op'] == 'call']
@@ -238,6 +241,8 @@ def run(ctx, c19=False):
 
 
 def replay(ctx, path):
+    if bigfam.maybe_replay(ctx, path):
+        return
     obj = json.load(open(path))
     events = finish(ctx, [obj['case']['history']])
     ctx.log('replayed: ' + json.dumps([e.get('out') for e in events if e['op'] == 'call'])[:600])
